@@ -74,3 +74,39 @@ Proof.
   destruct ex_names_hyps as (W & L & N). rewrite <- N.
   apply names_exact_string; assumption.
 Qed.
+
+(* ---------- an explicit rendering with white space: the hypotheses of names_exact_rendering hold ---------- *)
+From Verif.Proofs Require Import LexerPrint RenderString ParserStateTok.
+
+Definition s_xf_ws : str := [32;120;40;32;102;41;9;43;50;107;32;42;10;120;32].     (* " x( f)<TAB>+2k *<LF>x " *)
+Definition seps_xf : list str := [[]; []; []; []; [9]; []; []; [10]].
+
+Lemma valid_plain_name : forall c, is_alpha c = true -> valid_name [c].
+Proof.
+  intros c H. exists c, [], [], []. split; [reflexivity|]. split; [assumption|].
+  split; [reflexivity|]. split; [constructor|reflexivity].
+Qed.
+
+Lemma ex_rendering_hyps :
+  wf_expr e_xf = true /\ Forall valid_token (render e_xf) /\
+  Forall (fun w => forallb is_ws w = true) seps_xf /\ strip_spaces s_xf_ws = spaced seps_xf (render e_xf).
+Proof.
+  split; [reflexivity|]. split; [|split; [repeat constructor|reflexivity]].
+  change (render e_xf) with [TName [120]; TLP; TName [102]; TRP; TPlus; TNum [50] (Some [107]); TStar; TName [120]].
+  assert (Hn : valid_token (TNum [50] (Some [107]))).
+  { split; [exists [50], []; split; [reflexivity|]; split; [apply man_int; reflexivity|constructor]|].
+    split; [reflexivity|]. split; [reflexivity|split; reflexivity]. }
+  repeat (apply Forall_cons; [first [exact Hn | apply valid_plain_name; reflexivity | exact I]|]). apply Forall_nil.
+Qed.
+
+Lemma ex_rendering_names : exists l,
+  snd (step junk_q faithful (run junk_q faithful init history) (OParse s_xf_ws)) = VP (VTree (flatten e_xf) l) /\
+  nperm l (mkNames [[102]; [120]] [[120]] [[107]]).
+Proof.
+  destruct ex_rendering_hyps as (W & V & S & E).
+  destruct ex_names_hyps as (_ & _ & N). rewrite <- N.
+  apply (names_exact_rendering junk_q history e_xf seps_xf s_xf_ws W V S E).
+Qed.
+
+Lemma ex_scan : scan_names (render e_xf) = mkNames [[102]; [120]] [[120]] [[107]].
+Proof. reflexivity. Qed.
